@@ -159,6 +159,10 @@ def epoch(ctx, shard, nshards):
         n = rnd.choice(B) if rnd.random() < 0.5 else rnd.randrange(a, b)
         s = rnd.choice(SECS) if rnd.random() < 0.5 else rnd.randrange(86400)
         inst.append((n, s))
+    if shard == 0:
+        # the epoch instant itself and the 32-bit limits, in every run
+        for e in (-86401, -86400, -3601, -61, -2, -1, 0, 1, 2, 59, 86399, 86400, 2 ** 31 - 1, 2 ** 31, 2 ** 32 - 1, 2 ** 32):
+            inst.append((R.UNIX0 + e // 86400, e % 86400))
     civ = [dt_text("ymd", n, s) for n, s in inst]
     eps = ["%d" % R.epoch(n, s) for n, s in inst]
     try:
